@@ -797,7 +797,7 @@ func (ex *Exec) elemPtr(b *Buf, off *Term, idx *Term, et types.Type) Ptr {
 // boundsCheck forks a panic path when idx may be outside [0,n).
 func (ex *Exec) boundsCheck(idx, n *Term, what string, pos token.Pos, fr *frame) {
 	ts := ex.ts
-	inb := ts.BvCmp(OULt, idx, n) // unsigned compare covers negative idx
+	inb := ex.simp(ts.BvCmp(OULt, idx, n)) // unsigned compare covers negative idx
 	if inb.IsConst() {
 		if inb.cBool() {
 			return
